@@ -182,6 +182,9 @@ structure St where
   skips : Nat
   /-- statements at whose visit the `if key in current_bits: continue` shortcut was taken, newest first -/
   skipStmts : List Int
+  /-- the in set computed at every visit (parallel to `visits`), newest first: what
+  `update_used_symbols_to_symbol_graph` / `get_used_symbol_indexes` project at the use sites -/
+  inTrace : List (List Def)
 
 /-- predecessor selection of `analyze_reachable_symbols` -/
 def selectPreds (I : Input) (G : Graph) (counter : Nat) (s : Int) : List Int :=
@@ -220,7 +223,8 @@ def step (v : Variant) (I : Input) (G : Graph) (st : St) : St :=
       { wl := wl1, counters := upd st.counters s (st.counters s + 1),
         ins := upd st.ins s a.1, outs := upd st.outs s a.2.1,
         visits := s :: st.visits, skips := st.skips + a.2.2,
-        skipStmts := if a.2.2 == 0 then st.skipStmts else s :: st.skipStmts }
+        skipStmts := if a.2.2 == 0 then st.skipStmts else s :: st.skipStmts,
+        inTrace := a.1 :: st.inTrace }
     else { st with wl := popV v G st.wl }
 
 def run (v : Variant) (I : Input) (G : Graph) : Nat → St → St
@@ -229,7 +233,7 @@ def run (v : Variant) (I : Input) (G : Graph) : Nat → St → St
 
 def init (G : Graph) : St :=
   { wl := WL.empty.add G.prio G.first, counters := fun _ => 0, ins := fun _ => [], outs := fun _ => [],
-    visits := [], skips := 0, skipStmts := [] }
+    visits := [], skips := 0, skipStmts := [], inTrace := [] }
 
 /-- every iteration removes one list entry; entries are only added by the at most
 `maxRound` analysed visits of each statement. -/
@@ -241,6 +245,7 @@ structure Result where
   visits : List Int
   skips : Nat
   skipStmts : List Int
+  inTrace : List (List Def)
   /-- the work list was empty when the fuel ran out (must be true; reported by the driver) -/
   finished : Bool
 
@@ -248,13 +253,24 @@ def rdWith (v : Variant) (I : Input) : Result :=
   let G := mkGraph I.rawEdges
   let st := run v I G (runFuel I G) (init G)
   { ins := st.ins, outs := st.outs, visits := st.visits.reverse, skips := st.skips,
-    skipStmts := st.skipStmts.reverse, finished := st.wl.heap.isEmpty }
+    skipStmts := st.skipStmts.reverse, inTrace := st.inTrace.reverse, finished := st.wl.heap.isEmpty }
 
 /-- live model: the code as it is in the repository now. -/
 def rd (I : Input) : Result := rdWith .pinned I
 
 /-- frozen model `ReachDef0`: the code at the pinned commit (never regenerated). -/
 def rd0 (I : Input) : Result := rdWith .pinned I
+
+/-! ### the use-site layer -/
+
+/-- the register `frame.defined_symbols`: every `(symbol, statement)` the defined-symbol table knows -/
+def register (I : Input) : List Def :=
+  I.defs.flatMap (fun e => e.2.map (fun sym => (sym, e.1)))
+
+/-- `check_reachable_symbol_defs` for a symbol the method defines:
+`available_symbol_defs & frame.defined_symbols[used_symbol_id]` -/
+def useSite (reg : List Def) (available : List Def) (sym : Int) : List Def :=
+  available.filter (fun d => d.1 == sym && reg.contains d)
 
 /-! ### idealised solvers (not the code) -/
 
